@@ -151,10 +151,42 @@ StrFree = Spec(
 )
 
 # ---------------------------------------------------------------------------------------------- ShroudStrArrayAlloc / Free
+TRIM = z3.Function("spec_trimmed_length_of_row", I, I)    # specification function: trimmed length of row j of src
+
+
+def _row(S, s, ln, j):
+    from .csym import CPtr
+    return CPtr(s.blk, s.off + j * ln, "char")
+
+
 def arrayalloc_requires(S):
     s, ns, ln = S.p("src"), S.i("nsrc"), S.i("len")
     return [ns >= 0, ln >= 0, ns * ln <= INT_MAX, ln + 1 <= INT_MAX, s.blk > 0, s.off >= 0, z3.Select(S.mem.live, s.blk),
             s.off + ns * ln <= z3.Select(S.mem.size, s.blk)]
+
+
+def _elem_is_trimmed_copy(S0, S, tab, j):
+    """element j of the table is a fresh block holding row j up to its trimmed length, NUL-terminated"""
+    s, ln = S0.p("src"), S0.i("len")
+    e = tab.blk + 1 + j
+    k = z3.Int("ek")
+    eb = z3.Select(S.mem.bytes, e)
+    return z3.And(z3.Select(S.mem.size, e) == TRIM(j) + 1, z3.Select(eb, TRIM(j)) == 0,
+                  z3.ForAll([k], z3.Implies(z3.And(k >= 0, k < TRIM(j)), z3.Select(eb, k) == S0.byte(s, j * ln + k))))
+
+
+def arrayalloc_call_lemmas(S0, S, res):
+    """after ntrim = ShroudLenTrim(src0, len): uniqueness of the trimmed length gives ntrim == TRIM(i)"""
+    s, ln = S0.p("src"), S0.i("len")
+    i, nt = S.i("i"), res.e
+    t = TRIM(i)
+    row = _row(S0, s, ln, i)
+    return [
+        ("define:TRIM(j) is the trimmed length of row j of src (every row has exactly one)", lentrim_char(S0, row, ln, t)),
+        ("inst-1", z3.Implies(nt < t, z3.And(t >= 1, S0.byte(row, t - 1) != SP, S0.byte(row, t - 1) == SP))),
+        ("inst-2", z3.Implies(t < nt, z3.And(nt >= 1, S0.byte(row, nt - 1) != SP, S0.byte(row, nt - 1) == SP))),
+        ("ntrim-is-the-trimmed-length", nt == t),
+    ]
 
 
 def arrayalloc_inv(S0, S):
@@ -172,6 +204,7 @@ def arrayalloc_inv(S0, S):
         ("source-untouched", z3.And(z3.Select(m.bytes, s.blk) == z3.Select(S0.mem.bytes, s.blk), z3.Select(m.live, s.blk),
                                     z3.Select(m.size, s.blk) == z3.Select(S0.mem.size, s.blk))),
         ("old-blocks", unchanged_other_blocks(S0, S, [])),
+        ("elements-are-trimmed-copies", forall(lambda j: z3.Implies(z3.And(j >= 0, j < i), _elem_is_trimmed_copy(S0, S, rv, j)), "cj")),
     ]
 
 
@@ -184,11 +217,14 @@ def arrayalloc_ensures(S0, S, r):
             z3.Select(z3.Select(m.pblk, r.blk), j) == r.blk + 1 + j, z3.Select(z3.Select(m.poff, r.blk), j) == 0,
             z3.Select(m.live, r.blk + 1 + j), MALLOCED(r.blk + 1 + j))))),
         ("old-blocks-unchanged", unchanged_other_blocks(S0, S, [])),
+        # C10: element j is the NUL-terminated copy of row j without its trailing blanks
+        ("elements-are-trimmed-copies", forall(lambda j: z3.Implies(z3.And(j >= 0, j < ns), _elem_is_trimmed_copy(S0, S, r, j)), "cj")),
     ]
 
 
 StrArrayAlloc = Spec("ShroudStrArrayAlloc", arrayalloc_requires, arrayalloc_ensures, invariants={0: arrayalloc_inv},
                      decreases={0: lambda S0, S: S0.i("nsrc") - S.i("i")},
+                     call_lemmas={"ShroudLenTrim": arrayalloc_call_lemmas},
                      loop_lemmas={0: lambda S0, S: [
                          ("product-step", (S.i("i") + 1) * S0.i("len") == S.i("i") * S0.i("len") + S0.i("len")),
                          ("product-monotone", (S.i("i") + 1) * S0.i("len") <= S0.i("nsrc") * S0.i("len"))]})
@@ -372,6 +408,13 @@ def int_consts(exprs, limit=14):
         if z3.is_const(x) and x.sort() == I and x.decl().kind() == z3.Z3_OP_UNINTERPRETED:
             if x.decl().name() not in seen and len(out) < limit:
                 seen.add(x.decl().name())
+                out.append(x)
+        elif z3.is_app(x) and x.sort() == I and x.decl().kind() == z3.Z3_OP_UNINTERPRETED and x.num_args() == 1 \
+                and x.decl().name().startswith("spec_") and z3.is_const(x.arg(0)) and not z3.is_var(x.arg(0)):
+            # ground application of a specification function (e.g. the trimmed length of row i)
+            key = x.sexpr()
+            if key not in seen and len(out) < limit + 6:
+                seen.add(key)
                 out.append(x)
         todo.extend(x.children())
     return out
